@@ -38,6 +38,8 @@ type ArgDecl struct {
 	// Neither changes what the spec, generated or written, accepts.
 	FlagLike bool
 	Default  string
+	// BuiltinInt: declared through the built-in IntArg (a single integer; no recorder behind it)
+	BuiltinInt bool
 }
 
 type Prog struct {
